@@ -104,7 +104,7 @@ def subsequence(ctx):
                         and 'LinkedList<core::RightSecretKey>' in body.local_ty(st['lhs']['l'])):
                     continue
                 m += 1
-                srcs = copy_chain_sources(body, rv['ops'][1], through_calls=IDENTITY_CALLS)
+                srcs = copy_chain_sources(body, rv['ops'][1], through_calls=(r'^std::ops::Try::branch$',) + tuple(IDENTITY_CALLS))
                 fresh = bool(srcs) and all(s[0] == 'call' and s[1].is_(r'LinkedList::<[^>]*>::new$') for s in srcs)
                 ctx.check(fresh, 'core::primitives::refresh_coordinate_keys', 'returned chain = the rebuilt chain',
                           'the chain paired with a right (line %d) is not the list rebuilt from the master chain (%s): the user\'s own '
